@@ -14,7 +14,7 @@ WRAPF  := $(foreach w,$(WRAPS),-Wl,--wrap=$(w))
 
 # in-process properties / properties under the deterministic scheduler (DST)
 PURE   := C17 C19 C18
-DST    := C05 C15 C06
+DST    := C05 C15 C06 C08
 ALL    := $(PURE) $(DST)
 
 all: $(addprefix $(B)/bin/,$(ALL))
@@ -34,7 +34,7 @@ $(B)/obj/%.o: $(V)/props/%.cpp $(V)/engine/pbt.hpp $(LIBNNG)
 EXTRA :=
 $(B)/bin/C18: EXTRA = $(B)/obj/shim_core.o
 $(B)/bin/C18: $(B)/obj/shim_core.o
-DSTOBJ := $(B)/obj/vsched.o $(B)/obj/nngh.o
+DSTOBJ := $(B)/obj/vsched.o $(B)/obj/nngh.o $(B)/obj/rawpeer.o
 $(addprefix $(B)/bin/,$(DST)): EXTRA = $(DSTOBJ) $(WRAPF)
 $(addprefix $(B)/bin/,$(DST)): $(DSTOBJ)
 
